@@ -61,6 +61,7 @@ func TestC16(t *testing.T) {
 	}
 	r.Exhaustive(true)
 	r.Extra("program_length", L)
+	largeCachePrograms(t, r)
 	sessionCacheSchedules(r)
 	stressC16(t, r)
 	r.Finish(t)
@@ -188,5 +189,52 @@ func stressC16(t *testing.T, r *ev.Run) {
 		}
 		mon.Mu.Unlock()
 		w.Close()
+	}
+}
+
+// largeCachePrograms: long scripted programs against session caches of 100/101 entries (the sizes at which the
+// tinylfu admission window and the slru protected segment become non-trivial): 3x capacity partitions, each
+// requested twice in a row (the second request promotes the entry), with revisits of older partitions, a use of a
+// held handle across the churn, an expiry and the factory close; same per-step and teardown-count oracle as the
+// enumerated programs.
+func largeCachePrograms(t *testing.T, r *ev.Run) {
+	for _, pol := range []string{"", "lru", "lfu", "slru", "tinylfu"} {
+		for _, size := range []int{100, 101} {
+			if !ev.Thorough() && size == 101 && pol != "tinylfu" {
+				continue
+			}
+			journal(fmt.Sprintf("C16 large-cache program policy=%q size=%d", pol, size))
+			var prog []sessprog.Op
+			prog = append(prog, sessprog.Op{Kind: 'G', Arg: 100000}) // a handle held across all the churn (oldest handle)
+			for i := 0; i < 3*size; i++ {
+				prog = append(prog, sessprog.Op{Kind: 'G', Arg: i}, sessprog.Op{Kind: 'C', Arg: 1}, sessprog.Op{Kind: 'G', Arg: i}, sessprog.Op{Kind: 'C', Arg: 1})
+				if i%7 == 6 {
+					prog = append(prog, sessprog.Op{Kind: 'G', Arg: i - 5}, sessprog.Op{Kind: 'C', Arg: 1})
+				}
+				if i%50 == 49 {
+					prog = append(prog, sessprog.Op{Kind: 'U', Arg: 0})
+				}
+			}
+			prog = append(prog, sessprog.Op{Kind: 'U', Arg: 0}, sessprog.Op{Kind: 'A'}, sessprog.Op{Kind: 'U', Arg: 0}, sessprog.Op{Kind: 'C', Arg: 0}, sessprog.Op{Kind: 'F'})
+			p := inBubble(t, func() {
+				w := world.New("memguard")
+				defer w.Close()
+				w.MS.Drop, w.AEAD.Drop = true, true
+				time.Sleep(17 * time.Second)
+				sig, detail, st := sessprog.RunProgram(w, pol, size, prog, time.Hour)
+				r.Eval(1)
+				r.Count("large_cache_programs", 1)
+				r.Count("handles_handed_out", int64(st[0]))
+				if st[2] >= 2 {
+					r.Distinct(fmt.Sprintf("large|%s|%d", pol, size))
+				}
+				if sig != "" {
+					r.Violation(sig, detail, map[string]any{"engine": "conc/c16-large", "policy": pol, "size": size})
+				}
+			})
+			if p != nil {
+				r.Violation("c16-panic-or-deadlock", fmt.Sprintf("large-cache program policy=%q size=%d: %v", pol, size, p), nil)
+			}
+		}
 	}
 }
